@@ -422,14 +422,10 @@ def calibrate(ctx):
         "array-neg": U("a-100000000{}", {"k": "array", "n": 2, "e": {"k": "int"}}),
         "client-count": {"entry": "client", "hex": b"Ra-1{}z".hex(), "rt": [{"k": "int"}, {"k": "int"}]},
         # behavioural repairs (a count that is negative or larger than the bytes left is refused, per site)
-        "fx_count-slice": U("a99999{", {"k": "slice", "e": {"k": "int"}}),
-        "fx_count-names": U('c1"A"99999{}'),
-        "fx_count-uint8": U("a99999{", {"k": "bytes"}),
-        "fx_count-args": {"entry": "service", "hex": b'Cs3"add"a99999{}z'.hex(), "svc": "a"},
-        "fx_count-map": U("m99999{"),
-        "fx_count-listmap": U("a99999{", {"k": "map", "key": {"k": "int"}, "e": {"k": "int"}}),
-        "fx_count-array": dict(U("a5{1}", {"k": "array", "n": 2, "e": {"k": "int"}}), dump=True),
-        "fx_count-objmap": dict(U('m9{s1"x"5}', {"k": "reg", "name": "Pt"}), dump=True),
+        "fx_count-slice": U("a-1{}", {"k": "slice", "e": {"k": "int"}}),
+        "fx_count-map": U("m-1{}"),
+        "fx_count-listmap": U("a-1{}", {"k": "map", "key": {"k": "int"}, "e": {"k": "int"}}),
+        "fx_count-objmap": U("m-1{}", {"k": "reg", "name": "Pt"}),
         "fx_loop": dict(U("a3{x12}", {"k": "slice", "e": {"k": "int"}}), dump=True),
         "fx_next": U('b70000"ab'),
         "fx_str": U('s70000"ab'),
@@ -456,15 +452,14 @@ def calibrate(ctx):
             key = n[3:]
             if o is None:
                 fx[key] = False
-            elif key in ("count-array",):
-                fx[key] = o["outcome"] == "error" and o.get("dump") == "[0 0]"
-            elif key == "count-objmap":
-                fx[key] = o["outcome"] == "error" and o.get("dump") == "{0 0}"
-            elif key.startswith("count-") or key in ("next", "str"):
+            elif key.startswith("count-"):
+                # a negative count: the pinned code delivers a value (a slice of length -1, an empty map, an untouched struct)
+                fx[key] = o["outcome"] == "error" and not o.get("corrupt")
+            elif key in ("next", "str"):
                 fx[key] = o["alloc"] < 60000
             elif key == "loop":
                 # the tree goes on decoding 1 and 2 after the bad element; a loop that stops leaves them 0
-                fx[key] = o["outcome"] == "error" and o.get("dump") == "[0 0 0]"
+                fx[key] = o["outcome"] == "error" and o.get("dump") != "[0 1 2]"
             elif key == "refnil":
                 fx[key] = o["outcome"] == "error"
             elif key == "strmap":
@@ -475,6 +470,10 @@ def calibrate(ctx):
             if not is_panic:
                 checked.append(n)
             detail[n] = "panics" if is_panic else "checked"
+    # where a negative count panics in the pinned code, the count repair and the hazard check are one and the same
+    for key, site in (("count-names", "make-neg-names"), ("count-uint8", "make-neg-uint8"), ("count-args", "make-neg-args"),
+                      ("count-array", "array-neg")):
+        fx[key] = site in checked
     return checked, fx, detail
 
 
@@ -727,6 +726,28 @@ def agree(exp, icl, ikey, case_len, m, o):
     return kind == icl
 
 
+def corpus_cases(ctx):
+    """minimised inputs of repaired defects run first, each case in a process of its own; they must pass the oracle"""
+    import glob
+    n = 0
+    for path in sorted(glob.glob(os.path.join(hv.V, "corpus", "C04-*.json"))):
+        r = json.load(open(path))
+        for k, case in enumerate(r.get("cases", [])):
+            c = dict(case)
+            c["id"] = 0
+            obs, crashes = run_impl_frames([c], 1)
+            icl, ikey, what = impl_verdict(c, obs.get(0), crashes.get(0))
+            n += 1
+            bad = ikey is not None or icl in ("panic", "fatal")
+            if r.get("status") == "fixed" and bad:
+                ctx.report("corpus:" + os.path.basename(path),
+                           "a repaired defect (%s, %s) fails again on case %d: %s %s" % (r.get("key"), r.get("fixed_by"), k, ikey or icl, what),
+                           {"case": case, "failing_input": True, "corpus": os.path.basename(path)})
+            elif r.get("status") == "known" and bad:
+                ctx.report(r["key"], what, {"case": case, "failing_input": True, "corpus": os.path.basename(path)})
+    ctx.note("corpus_cases_run_first", n)
+
+
 def run(ctx):
     import time
     T = {}
@@ -751,6 +772,8 @@ def run(ctx):
     ctx.note("tree_checks", {"checked_sites": checked, "behavioural_repairs": fx, "witnesses": detail})
 
     T["build+calibrate"] = round(time.time() - t0, 1); t0 = time.time()
+    corpus_cases(ctx)
+    T["corpus"] = round(time.time() - t0, 1); t0 = time.time()
     g = generate(ctx, seeds)
     cases = g.cases
     T["generate"] = round(time.time() - t0, 1); t0 = time.time()
@@ -854,6 +877,10 @@ def run(ctx):
             if cur is None or n < cur[0]:
                 disagree[dk] = (n, c, what, m["raw"], bad)
     ctx.note("correspondence", stats)
+    ctx.note("model_counters", {"max_spin": max([m.get("spin", 0) for m in model.values()] or [0]),
+                                "max_excess": max([m.get("excess", 0) for m in model.values()] or [0]),
+                                "max_steps_per_input_byte": round(max([m.get("steps", 0) / max(1, len(c["hex"]) // 2)
+                                                                       for c in cases for m in [model[c["id"]]]] or [0]), 1)})
     ctx.note("disagreements", [{"kind": k, "entry": v[1]["entry"], "hex": v[1]["hex"][:120], "t": v[1].get("t") or v[1].get("rt") or v[1].get("svc"),
                                 "mode": v[1].get("mode"), "model": v[3][:120], "impl": v[2][:80]} for k, v in sorted(disagree.items())][:30])
     ctx.note("valid_alloc", {"max_TotalAlloc_on_valid_streams": max_valid_alloc, "max_bytes_per_input_byte": round(max_ratio, 1),
